@@ -2,15 +2,16 @@
 C08 — configuration survives JSON encode/decode round trips (internal/conf/duration.go,
 internal/conf/string_size.go; whole configuration by correspondence).
 
-Modelled
-* `Duration.marshalInternal` / `unmarshalInternal` at the text level: sign, day split, the regular expression
-  `^(-?[0-9]+)d`, `strconv.ParseInt` with its ignored range error (clamping), int64 wrap-around, `-d` at MinInt64.
-  `time.Duration.String` / `time.ParseDuration` are oracle parameters `fmt` / `parse`.
-* `StringSize` through code.cloudfoundry.org/bytefmt at the numeric level for values < 2^50:
-  `ByteSize` = (tenths, unit) with round-half-even of the exact quotient (float64 is exact below 2^53 and
-  division by a power of two is exact), `ToBytes` of that text = ⌊tenths · unit / 10⌋ (the float product is within
-  0.2 of the exact value below 2^50, and exact for .0/.5). Above 2^50 the library is an oracle.
-* the proposed fixes (`…Fixed`).
+Modelled (the code as of /repo commits 834859b and 6496753)
+* `Duration.marshalInternal` (`marshalDur`: sign + unsigned magnitude split into days and the rest) and
+  `unmarshalInternal` at the text level: the regular expression `^(-?[0-9]+)d`, `strconv.ParseInt` with its ignored
+  range error (clamping), int64 wrap-around. `time.Duration.String` / `time.ParseDuration` are oracle parameters.
+* `StringSize.MarshalJSON` (`marshalSS`: integer count of the largest unit that divides the value) and the integer
+  parser in front of bytefmt (`roundTripSS`).
+Kept for the record, with the theorems that characterise the two defects that were fixed (F-C08, F-C08b):
+* `marshalDurOld` (negated the int64: MinInt64 was written as "--…"),
+* `…Bytefmt`: bytefmt `ByteSize` = (tenths, unit) with round-half-even of the exact quotient (float64 is exact
+  below 2^53, division by a power of two is exact), `ToBytes` of that text = ⌊tenths · unit / 10⌋.
 -/
 import MtxVerif.Base.DriverLib
 
@@ -52,8 +53,8 @@ def digitsVal (ds : Bytes) : Nat := ds.foldl (fun acc c => acc * 10 + (c.toNat -
 
 /-! ### Duration -/
 
-/-- `Duration.marshalInternal` (`fmt` = `time.Duration.String`) -/
-def marshalDur (fmt : Int → Bytes) (d : Int) : Bytes :=
+/-- `Duration.marshalInternal` BEFORE 6496753 (`fmt` = `time.Duration.String`): `d = -d` overflows at MinInt64 -/
+def marshalDurOld (fmt : Int → Bytes) (d : Int) : Bytes :=
   let neg := decide (d < 0)
   let d1 := if neg then wrap64 (-d) else d          -- `d = -d` (MinInt64 stays MinInt64)
   let days := Int.tdiv d1 day                       -- Go `/` and `%` truncate toward zero
@@ -95,8 +96,8 @@ def unmarshalDur (parse : Bytes → Option Int) (s : Bytes) : Option Int :=
     let total := wrap64 (nd + t.2.1 * day)
     some (if t.1 then wrap64 (-total) else total)
 
-/-- proposed fix of `marshalInternal`: split the unsigned magnitude, so MinInt64 needs no special case -/
-def marshalDurFixed (fmt : Int → Bytes) (d : Int) : Bytes :=
+/-- `Duration.marshalInternal`: the unsigned magnitude is split, so MinInt64 needs no special case -/
+def marshalDur (fmt : Int → Bytes) (d : Int) : Bytes :=
   let neg := decide (d < 0)
   let mag : Int := if neg then -d else d            -- as uint64: 0 … 2^63
   let days := mag / day
@@ -131,24 +132,24 @@ def renderQ (qk : Nat × Nat) : Bytes :=
 /-- `ToBytes` of such a text: `uint64(float * unit)` -/
 def toBytesQ (qk : Nat × Nat) : Nat := qk.1 * 1024 ^ qk.2 / 10
 
-def marshalSS (s : Nat) : Bytes := renderQ (byteSizeQ s)
+def marshalSSBytefmt (s : Nat) : Bytes := renderQ (byteSizeQ s)
 
 /-- value read back after `MarshalJSON` → `UnmarshalJSON` -/
-def roundTripSS (s : Nat) : Nat := toBytesQ (byteSizeQ s)
+def roundTripSSBytefmt (s : Nat) : Nat := toBytesQ (byteSizeQ s)
 
 /-- does the value survive? (decidable class of F-C08 is the complement, below 2^50) -/
-def rtOK (s : Nat) : Bool := roundTripSS s == s
+def rtOKBytefmt (s : Nat) : Bool := roundTripSSBytefmt s == s
 
-/-- proposed fix: marshal exactly, as an integer count of the largest unit that divides the value -/
+/-- `StringSize.MarshalJSON`: exact, an integer count of the largest unit that divides the value -/
 def exactIdxFuel : Nat → Nat → Nat → Nat
   | 0, _, k => k
   | f + 1, s, k => if k < 6 ∧ s ≠ 0 ∧ s % 1024 = 0 then exactIdxFuel f (s / 1024) (k + 1) else k
 
 def exactIdx (s : Nat) : Nat := exactIdxFuel 6 s 0
 
-def marshalSSFixed (s : Nat) : Bytes := dec (s / 1024 ^ exactIdx s) ++ [unitLetter (exactIdx s)]
+def marshalSS (s : Nat) : Bytes := dec (s / 1024 ^ exactIdx s) ++ [unitLetter (exactIdx s)]
 
-def roundTripSSFixed (s : Nat) : Nat := (s / 1024 ^ exactIdx s) * 1024 ^ exactIdx s
+def roundTripSS (s : Nat) : Nat := (s / 1024 ^ exactIdx s) * 1024 ^ exactIdx s
 
 /-! ### helpers for the driver -/
 
